@@ -30,6 +30,7 @@ fn main() {
 		"params_sequence_agrees_with_parse" => probes::params_sequence_agrees_with_parse(),
 		"host_filter_gate" => probes::host_filter_gate(),
 		"subscription_bookkeeping" => probes::subscription_bookkeeping(),
+		"http_method_gate" => probes::http_method_gate(),
 		_ => json!({"probe": name, "error": "unknown probe"}),
 	};
 	println!("{}", res);
